@@ -29,14 +29,18 @@ func main() {
 	}
 	sort.Strings(names)
 	keep := map[string]bool{}
+	failed := 0
 	for _, n := range names {
-		src, err := generators[n](*repo)
-		if err != nil {
-			fmt.Fprintf(os.Stderr, "extract %s: %v\n", n, err)
-			os.Exit(1)
-		}
 		path := filepath.Join(*out, n+".lean")
 		keep[path] = true
+		src, err := generators[n](*repo)
+		if err != nil {
+			// a generator that no longer understands the source must not hide the other modules:
+			// report it (one line per module, parsed by tools/check.py) and go on; exit status 3
+			fmt.Fprintf(os.Stderr, "EXTRACT-FAILED %s: %v\n", n, err)
+			failed++
+			continue
+		}
 		old, _ := os.ReadFile(path)
 		if string(old) != src {
 			if err := os.WriteFile(path, []byte(src), 0o644); err != nil {
@@ -50,5 +54,8 @@ func main() {
 		if !keep[f] {
 			_ = os.Remove(f)
 		}
+	}
+	if failed > 0 {
+		os.Exit(3)
 	}
 }
